@@ -646,6 +646,8 @@ primaryexpr(struct scope *s)
 	struct type *t;
 	char *src, *end;
 	uint_least32_t chr;
+	bool hexoct;
+	size_t width;
 	int base;
 
 	switch (tok.kind) {
@@ -678,7 +680,11 @@ primaryexpr(struct scope *s)
 		}
 		assert(*src == '\'');
 		++src;
-		src += decodechar(src, &chr, NULL, "character constant", &tok.loc);
+		hexoct = false;
+		src += decodechar(src, &chr, &hexoct, "character constant", &tok.loc);
+		width = tok.lit[0] == '\'' ? 1 : t->size;
+		if (hexoct && width < 4 && chr >> width * 8)
+			error(&tok.loc, "escape sequence in character constant is out of range");
 		/* an unprefixed constant has the value of a char object, converted to int */
 		if (tok.lit[0] == '\'' && typechar.u.basic.issigned && chr <= 0xff)
 			e = mkconstexpr(t, (signed char)chr);
